@@ -7,6 +7,8 @@ stack the scenario runs on (numpy.array or the symbolic shim's array)."""
 GC2 = [[-1, -1, -1, -1], [4, -1, -1, 7], [8, -1, -1, 11], [-1, -1, -1, -1], [-1, 1, 2, -1], [-1, -1, -1, -1], [-1, -1, -1, -1], [-1, 13, 14, -1],
        [-1, 1, 2, -1], [-1, -1, -1, -1], [-1, -1, -1, -1], [-1, 13, 14, -1], [-1, -1, -1, -1], [4, -1, -1, 7], [8, -1, -1, 11], [-1, -1, -1, -1]]
 MIXED1 = [[0, 1, -1, 3], [-1, 1, 2, -1], [0, -1, -1, 3], [0, 1, 2, 3]]
+GC2D = [list(r) for r in GC2]
+GC2D[1][1], GC2D[7][0], GC2D[14][2] = 5, 12, 10      # the GC-balanced graph plus three arcs into dead-end vertices
 
 
 def s_coding(env):
@@ -173,6 +175,17 @@ def s_variation(env):
         ("EDIT-ACC-A", None, (), {}),
         ("encA-edited", "encode", (msg, accA, start), {}),
         ("decA-edited", "decode", (env["strand"], L, accA, start), {}),
+        ("n2d-3", "number_to_dna", (5, 3), {}),
+        ("n2d-4", "number_to_dna", (5, 4), {}),
+        ("n2d-0-3", "number_to_dna", (0, 3), {}),
+        ("n2d-0-2", "number_to_dna", (0, 2), {}),
+        ("n2d-s", "number_to_dna", ("5", 2), {}),
+        ("n2b-3", "number_to_bit", (5, 3), {}),
+        ("n2b-8", "number_to_bit", (5, 8), {}),
+        ("n2b-s", "number_to_bit", ("5", 4), {}),
+        ("vt-4", "set_vt", (env["strand"], 4), {}),
+        ("vt-5", "set_vt", (env["strand"], 5), {}),
+        ("vt-2", "set_vt", (env["strand"], 2), {}),
         ("lat-k", "obtain_latters", (env["root"], k), {}),
         ("lat-k3", "obtain_latters", (env["root"], 3), {}),
         ("for-k3", "obtain_formers", (env["root"], 3), {}),
